@@ -67,7 +67,7 @@ package gochannel
 
 //@ type GoChannel
 //@   self g
-//@   monitor closedLock guards closed
+//@   monitor closedLock guards closed, closing(close)
 //@   monitor subscribersLock guards subscribers, #inflight
 //@   ghostfield inflight *subscriber
 //@   monitor persistedMessagesLock guards persistedMessages
@@ -75,7 +75,9 @@ package gochannel
 //@   syncmap subscribersByTopicLock *sync.Mutex
 //@   object-invariant g.closing != nil && g.logger != nil [wired-at-creation]
 //@   rely old(g.closed) ==> g.closed [closed-is-final]
+//@   rely old(g.closed) ==> wg(g.subscribersWg) <= old(wg(g.subscribersWg)) [no-new-subscriptions-once-closed]
 //@   invariant g.closing != nil && g.closed == closed(g.closing) [mon:closedLock:closed-flag-tells-the-closing-channel]
+//@   invariant g.closed ==> wg(g.subscribersWg) == 0 [mon:closedLock:a-closed-pubsub-has-no-subscription-left-whenever-its-close-lock-is-free]
 //@   invariant g.subscribers != nil [mon:subscribersLock:subscriber-table-exists]
 //@   invariant forall t string, i int :: has(g.subscribers, t) && 0 <= i && i < len(g.subscribers[t]) ==> g.subscribers[t][i] != nil [mon:subscribersLock:registered-subscriptions-exist]
 //@   invariant forall s *subscriber :: s != nil && gf(home, s) == g && gf(promised, s) && !gf(gone, s) && s != gf(inflight, g) ==> (exists j int :: 0 <= j && j < len(g.subscribers[gf(topic, s)]) && g.subscribers[gf(topic, s)][j] == s) [mon:subscribersLock:every-subscription-with-a-teardown-is-registered-under-its-topic]
@@ -125,6 +127,7 @@ package gochannel
 //@   requires g != nil && g.logger != nil
 //@   nopanic
 //@   ensures result == nil && g.closed && closed(g.closing) [closed-and-announced]
+//@   ensures wg(g.subscribersWg) == 0 [returns-only-when-every-subscription-has-been-torn-down]
 //@   modifies g.closed, closed(g.closing), g.persistedMessages
 
 //@ func (*GoChannel).waitForAckFromSubscribers
@@ -181,6 +184,7 @@ package gochannel
 //@   inv loop 1: len(messagesToPublish) == len(messages) && ncalls(SM) == old(ncalls(SM)) [nothing-dispatched-yet]
 //@   inv loop 2: len(messagesToPublish) == len(messages) && (forall j int :: 0 <= j && j < len(messages) ==> copyof(messagesToPublish[j], messages[j])) [all-copied]
 //@   inv loop 2: ncalls(SM) == old(ncalls(SM)) + rangeindex + 1 && (forall j int :: 0 <= j && j <= rangeindex ==> sarg(SM, 0, old(ncalls(SM)) + j) == g && sarg(SM, 1, old(ncalls(SM)) + j) == topic && sarg(SM, 2, old(ncalls(SM)) + j) == messagesToPublish[j]) [dispatched-so-far-in-order]
+//@   inv loop 2: has(g.subscribers, topic) == entry(has(g.subscribers, topic)) && len(g.subscribers[topic]) == entry(len(g.subscribers[topic])) && (forall j int :: 0 <= j && j < len(g.subscribers[topic]) ==> g.subscribers[topic][j] == entry(g.subscribers[topic][j])) [the-topics-registered-subscriptions-do-not-change-between-persisting-and-the-last-dispatch]
 //@   inv loop 2: g.config.BlockPublishUntilSubscriberAck ==> (forall j int :: 0 <= j && j <= rangeindex ==> closed(sret(SM, 0, old(ncalls(SM)) + j)) || closed(g.closing)) [waited-for-each-so-far]
 
 //@ func (*GoChannel).Subscribe$1
